@@ -1818,3 +1818,94 @@ mutant("c01-shared-parser", "C01", "C01-D9", "parser/json/parser.go",
 # ---------------------------------------------------------------- C11-D7
 mutant("c11-unmarshal-into-pointer-to-pointer", "C11", "C11-D7", "engine.io/transport/webtransport/server.go",
        "		err = json.Unmarshal(packet.Data, data)", "		err = json.Unmarshal(packet.Data, &data)")
+
+# round 3: wrap-around of a wire-derived number, optional header fields
+mutant("c10-placeholder-num-wraps", "C10", "C10-D1", "parser/json/binary.go",
+       """			num := p.Num + 1
+
+			if num < 1 || num >= len(r.buffers) {
+				return errInvalidPlaceholderNumValue
+			}
+
+			buf := r.buffers[num]""",
+       """			if p.Num < 0 || p.Num+1 >= len(r.buffers) {
+				return errInvalidPlaceholderNumValue
+			}
+
+			buf := r.buffers[p.Num+1]""")
+mutant("c10-server-ack-id-unchecked", "C10", "C10-D10", "server_socket.go",
+       """	if header.ID == nil {
+		s.onError(wrapInternalError(fmt.Errorf("header.ID is nil")))
+		return
+	}
+
+	s.debug.Log("Calling ack with ID", *header.ID)
+
+	s.acksMu.Lock()""",
+       """	s.debug.Log("Calling ack with ID", *header.ID)
+
+	s.acksMu.Lock()""")
+mutant("c10-client-ack-id-checked-late", "C10", "C10-D10", "client_socket.go",
+       """	if header.ID == nil {
+		s.onError(wrapInternalError(fmt.Errorf("header.ID is nil")))
+		return
+	}
+
+	s.debug.Log("Calling ack with ID", *header.ID)""",
+       """	s.debug.Log("Calling ack with ID", *header.ID)
+	if header.ID == nil {
+		s.onError(wrapInternalError(fmt.Errorf("header.ID is nil")))
+		return
+	}
+""")
+mutant("c10-event-ack-id-unchecked", "C10", "C10-D10", "server_socket.go",
+       """	if header.ID != nil && ack {""",
+       """	if ack {""")
+
+# round 3: attachment completion (affine forms), walker state
+mutant("c09-complete-one-early", "C09", "C09-D7", "parser/json/binary.go",
+       """	r.remaining--
+	return r.remaining == 0""",
+       """	r.remaining--
+	return r.remaining <= 1""")
+mutant("c09-complete-by-length-off-by-one", "C09", "C09-D7", "parser/json/binary.go",
+       """	r.remaining--
+	return r.remaining == 0""",
+       """	r.remaining--
+	return len(r.buffers) >= r.header.Attachments""")
+mutant("c09-counter-starts-one-high", "C09", "C09-D7", "parser/json/decode.go",
+       """			remaining: header.Attachments,""",
+       """			remaining: header.Attachments + 1,""")
+mutant("c10-complete-one-late", "C10", "C10-D5", "parser/json/binary.go",
+       """	r.remaining--
+	return r.remaining == 0""",
+       """	r.remaining--
+	return len(r.buffers)-1 > r.header.Attachments""")
+mutant("c09-hasbinary-verdict-cached-per-type", "C09", "C09-D8", "parser/json/binary.go",
+       """		case reflect.Struct:
+			nf := rv.NumField()
+			for i := 0; i < nf; i++ {
+				fv := rv.Field(i)""",
+       """		case reflect.Struct:
+			if plainTypes[rv.Type()] {
+				continue
+			}
+			defer func(t reflect.Type) { plainTypes[t] = true }(rv.Type())
+			nf := rv.NumField()
+			for i := 0; i < nf; i++ {
+				fv := rv.Field(i)""")
+MUTANTS[-1]["then"] = ("parser/json/binary.go", "func hasBinary(values ...reflect.Value) bool {", "var plainTypes = map[reflect.Type]bool{}\n\nfunc hasBinary(values ...reflect.Value) bool {")
+
+# F32: a reflect.New pointer stored into a typed map
+mutant("c10-f32-decode-map-binary-pointer", "C10", "C10-D11", "parser/json/binary.go",
+       """					if !x.Type().AssignableTo(rv.Type().Elem()) {
+						// map[K]Binary: the element is the slice itself, not a pointer to it.
+						x = x.Elem()
+					}
+""", "")
+mutant("c09-f32-encode-map-binary-pointer", "C09", "C09-D9", "parser/json/binary.go",
+       """				if !x.Type().AssignableTo(rv.Type().Elem()) {
+					// map[K]Binary: the element is the slice itself, not a pointer to it.
+					x = x.Elem()
+				}
+""", "")
